@@ -9,8 +9,8 @@ Section Hist.
   Variable Ang : Type.
   Variable ang_add : Ang -> Ang -> Ang.
   Variable ang_opp : Ang -> Ang.
-  Variable ang_small : Ang -> bool.
-  Variable ang_eqmod : Ang -> Ang -> bool.
+  Variable ang_small : bool -> Ang -> bool.
+  Variable ang_eqmod : bool -> Ang -> Ang -> bool.
   Variable ang_mpi2 : Ang.
   Variable ang_mpi4 : Ang.
   Variable T : tables.
